@@ -699,6 +699,37 @@ main(int argc, char **argv)
 			}
 			settle();
 			o("\"out\":{\"rv\":\"%s\"},", rvname(rv));
+		} else if (!strcmp(cmd, "ctxopt")) {
+			// ctxopt <ctx> <name> <int|ms|bool> <value>
+			int c = atoi(a1), rv;
+			if (!strcmp(a3, "int")) {
+				rv = nng_ctx_set_int(ctxs[c], a2, atoi(a4));
+			} else if (!strcmp(a3, "ms")) {
+				rv = nng_ctx_set_ms(ctxs[c], a2, atoi(a4));
+			} else {
+				rv = nng_ctx_set_bool(ctxs[c], a2, atoi(a4) != 0);
+			}
+			settle();
+			o("\"out\":{\"rv\":\"%s\"},", rvname(rv));
+		} else if (!strcmp(cmd, "sub") || !strcmp(cmd, "unsub")) {
+			// sub <ctx> <hex-topic | ->
+			int     c = atoi(a1), rv;
+			uint8_t t[32];
+			size_t  tl = 0;
+			if (strcmp(a2, "-") != 0) {
+				for (size_t i = 0; a2[i] && a2[i + 1] && tl < sizeof(t); i += 2) {
+					unsigned x;
+					sscanf(a2 + i, "%2x", &x);
+					t[tl++] = (uint8_t) x;
+				}
+			}
+			if (cmd[0] == 's') {
+				rv = c > 0 ? nng_sub0_ctx_subscribe(ctxs[c], t, tl) : nng_sub0_socket_subscribe(sut, t, tl);
+			} else {
+				rv = c > 0 ? nng_sub0_ctx_unsubscribe(ctxs[c], t, tl) : nng_sub0_socket_unsubscribe(sut, t, tl);
+			}
+			settle();
+			o("\"out\":{\"rv\":\"%s\"},", rvname(rv));
 		} else if (!strcmp(cmd, "tick")) {
 			dee_advance((uint64_t) atol(a1));
 			settle();
